@@ -5,6 +5,7 @@ obligation is re-evaluated on every later turn of the conversation (a rejection,
 rewrite or failure in one turn must not weaken later turns).
 """
 import itertools
+import json
 import random
 
 from . import railsconv as rc
@@ -99,9 +100,114 @@ def cases(tier, seed):
         i += 1
         c = rc.gen_case(rng, "v2", tier, force={"m": rng.randint(1, 2), "turns": rng.randint(2, 4)})
         yield dict(c, id=i)
+    for c in _lib_cases(random.Random(4242 + seed), 150 if tier == "quick" else 1500):
+        i += 1
+        yield dict(c, id=i)
+
+
+# ----------------------------------------------------------------------------- the library's own LLM-driven output rail
+LIB_YAML = (
+    "rails:\n  output:\n    flows:\n      - self check output\n"
+    "prompts:\n  - task: self_check_output\n    max_length: %d\n    content: |-\n"
+    "      SELFCHECK-OUT Is the following bot message bad (yes or no)?\n      <<<{{ bot_response }}>>>\n      Answer:\n"
+)
+LIB_REFUSAL = "I'm sorry, I can't respond to that."
+
+
+def _lib_cases(rng, n):
+    for _ in range(n):
+        turns = []
+        for t in range(rng.randint(1, 3)):
+            size = rng.choice(["short", "short", "medium", "long", "huge"])
+            turns.append({"size": size, "bad": rng.random() < 0.5, "where": rng.choice(["head", "middle", "tail", "tail"])})
+        yield {"fam": "lib", "turns": turns, "max_length": rng.choice([400, 600, 16000]), "mode": rng.choice(["general", "dialog"]), "exc": rng.random() < 0.2,
+               "cid": "l%d" % rng.randint(0, 10**6)}
+
+
+def _lib_text(case, t):
+    spec = case["turns"][t]
+    n = {"short": 2, "medium": 12, "long": 40, "huge": 700}[spec["size"]]
+    words = ["filler%d" % j for j in range(n)]
+    if spec["bad"]:
+        pos = {"head": 0, "middle": len(words) // 2, "tail": len(words)}[spec["where"]]
+        words.insert(pos, "FORBIDDEN")
+    return "BOT-%s-%d %s" % (case["cid"], t, " ".join(words))
+
+
+def run_lib(case):
+    """The shipped `self check output` rail (an LLM call judging the bot message). The scripted checker answers `yes` (= bad) iff
+    the word FORBIDDEN is in the part of the message it is SHOWN. Refuted by: a reply containing a bad message; a reply
+    containing a message the checker was not shown in full."""
+    from .railsconv import rails
+
+    L = rails.load()
+    log = rails.Log()
+    state = {"t": 0}
+
+    def script(prompt):
+        if "SELFCHECK-OUT" in prompt:
+            shown = prompt.split("<<<", 1)[1].rsplit(">>>", 1)[0] if "<<<" in prompt and ">>>" in prompt else prompt
+            log.add("checker", shown=shown)
+            return "yes" if "FORBIDDEN" in shown else "no"
+        tail = prompt.rstrip().split("\n")[-1]
+        if case["mode"] == "dialog":
+            if tail.startswith('user "'):
+                return "  ask something"
+            if tail.strip() in ("ask something", "user ask something"):
+                return "bot answer something"
+            return '  "%s"' % _lib_text(case, state["t"])
+        return _lib_text(case, state["t"])
+
+    y = rails.MAIN_MODELS + ("enable_rails_exceptions: True\n" if case["exc"] else "") + LIB_YAML % case["max_length"]
+    co = 'define user ask something\n  "something"\n\ndefine flow\n  user ask something\n  bot answer something\n' if case["mode"] == "dialog" else ""
+    base = {"key": repr((case["mode"], case["exc"], case["max_length"], [(x["size"], x["bad"], x["where"]) for x in case["turns"]])), "nontrivial": any(x["bad"] for x in case["turns"]),
+            "sample": {"family": "library self check output", "mode": case["mode"], "max_length": case["max_length"], "turns": case["turns"]}, "ver": "v1", "fam": "lib"}
+    obs = {"lib_turns": 0, "lib_checker_calls": 0, "lib_bad_messages": 0, "lib_overflowing_messages": 0}
+    try:
+        cfg = L["RailsConfig"].from_content(co, y)
+        llm = L["RecLLM"](script=script, log=log)
+        app = L["LLMRails"](cfg, llm=llm)
+    except Exception as e:
+        return dict(base, verdict="inconclusive", reason="app-build-failed:%s" % type(e).__name__, detail=str(e)[:300], nontrivial=False)
+    msgs = []
+    for t in range(len(case["turns"])):
+        state["t"] = t
+        log.items[:] = []
+        text = _lib_text(case, t)
+        msgs.append({"role": "user", "content": "question %d something" % t})
+        try:
+            reply = app.generate(messages=list(msgs))
+        except Exception as e:
+            return dict(base, verdict="violated", what="generate-raised-without-fault", observed=obs, witness={"turn": t, "exception": "%s: %s" % (type(e).__name__, str(e)[:300]), "llm_text_len": len(text)})
+        obs["lib_turns"] += 1
+        shown = [e["shown"] for e in log.items if e["kind"] == "checker"]
+        obs["lib_checker_calls"] += len(shown)
+        content = reply.get("content") if isinstance(reply, dict) else None
+        ctext = content if isinstance(content, str) else json.dumps(content, default=str)
+        token = "BOT-%s-%d" % (case["cid"], t)
+        bad = case["turns"][t]["bad"]
+        obs["lib_bad_messages"] += int(bad)
+        whole = any(text in s_ for s_ in shown)
+        obs["lib_overflowing_messages"] += int(not whole)
+        w = {"turn": t, "llm_text_len": len(text), "bad_word_at": case["turns"][t]["where"] if bad else None, "reply": ctext[:200], "checker_was_shown": [len(s_) for s_ in shown],
+             "checker_saw_whole_message": whole, "max_length": case["max_length"]}
+        if bad and token in ctext:
+            return dict(base, verdict="violated", what="rejected-llm-text-returned", observed=obs, witness=w)
+        if token in ctext and not whole:
+            return dict(base, verdict="violated", what="llm-text-returned-without-being-shown-to-the-rail-in-full", observed=obs, witness=w)
+        if not bad and whole and (reply.get("role") != "assistant" or content != text):
+            return dict(base, verdict="violated", what="reply-differs-from-model", observed=obs, witness=w)
+        msgs.append({"role": "assistant", "content": content if isinstance(content, str) else "(exception)"})
+    if obs["lib_checker_calls"] == 0:
+        # every message of the conversation overflowed the check prompt: the turns ended in the internal-error reply (judged
+        # above: no message text came back), the rail's LLM was never asked
+        return dict(base, verdict="inconclusive", reason="expected:every-message-overflowed-the-check-prompt", observed=obs, nontrivial=False)
+    return dict(base, verdict="held", observed=obs)
 
 
 def run_case(case):
+    if case.get("fam") == "lib":
+        return run_lib(case)
     r = run_case_for(TAG, case)
     outs = [(t, v) for s, t, idx, v in case["V"] if s == "out"]
     first_bad = min([t for t, v in outs if v in ("block", "rewrite")], default=None)
